@@ -598,10 +598,414 @@ Proof.
     + intros k d i X. apply P in X. rewrite Ea in X. destruct X.
     + split; lia.
     + split; [lia|]. intros Hpos k due i X. apply P in X. rewrite Ea in *. inversion S as [|? ? _ FA]; subst.
-      destruct X as [<-|X]; [cbn; lia|].
+      destruct X as [Xa|X]; [subst a; cbn in *; lia|].
       rewrite Forall_forall in FA. specialize (FA _ X). unfold alt in FA. apply alarm_lt_spec in FA. cbn in FA. lia.
   - intros Q. apply ID.
     destruct (plan_cases _ _ _ Pl) as [[-> [_ [_ Ed]]]|[[-> _]|[a [rest [_ [-> [_ [Ed|Ez]]]]]]]]; auto.
     + cbn in Q. lia.
     + cbn in Q. lia.
+Qed.
+
+(* ---------- select() ---------- *)
+Lemma do_select_spec : forall to st s s1 r, do_select to (watch s) st s = (s1, r) ->
+  exists pairs v,
+    (forall fd id, In (fd, id) pairs -> lookup fd (watch s) = Some id) /\
+    s1 = set_now v (log (ESelect to (map fst (watch s)) (now s) (map fst pairs)) s) /\
+    match r with
+    | None => to = None /\ pairs = []
+    | Some rd => rd = pairs /\ (pairs = [] -> exists t0, to = Some t0 /\ v = now s + t0 + Z.max 0 (s_dt st))
+    end.
+Proof.
+  intros to st s s1 r E. unfold do_select in E.
+  set (pairs := flat_map (fun fd => match lookup fd (watch s) with Some id => [(fd, id)] | None => [] end) (s_fds st)) in *.
+  assert (Hp : forall fd id, In (fd, id) pairs -> lookup fd (watch s) = Some id).
+  { intros fd id X. unfold pairs in X. apply in_flat_map in X. destruct X as [x [_ X]].
+    destruct (lookup x (watch s)) eqn:L; [|destruct X]. destruct X as [X|[]]. inversion X; subst. exact L. }
+  exists pairs. destruct pairs as [|p ps] eqn:Ep; destruct to as [t0|]; inversion E; subst; clear E.
+  - eexists. split; [exact Hp|]. split; [reflexivity|]. split; [reflexivity|]. intros _. eauto.
+  - exists (now s). split; [exact Hp|]. split; [reflexivity|]. auto.
+  - eexists. split; [exact Hp|]. split; [reflexivity|]. split; [reflexivity|]. discriminate.
+  - eexists. split; [exact Hp|]. split; [reflexivity|]. split; [reflexivity|]. discriminate.
+Qed.
+
+Lemma pairs_regs : forall (pairs w : list (Z * Z)), (forall fd id, In (fd, id) pairs -> lookup fd w = Some id) ->
+  forall fd, In fd (map fst pairs) -> In fd (map fst w).
+Proof.
+  intros pairs w H fd X. apply in_map_iff in X. destruct X as [[f i] [X1 X2]]. cbn in X1; subst.
+  apply lookup_some_key. exists i. auto.
+Qed.
+
+Lemma Inv_select : forall s to tm pairs v, LoopInv s -> plan s = Some (to, tm) ->
+  (forall fd id, In (fd, id) pairs -> lookup fd (watch s) = Some id) ->
+  Inv (set_now v (log (ESelect to (map fst (watch s)) (now s) (map fst pairs)) s)).
+Proof.
+  intros s to tm pairs v L Pl Hp. apply Inv_set_now. apply Inv_log; auto; [|apply L].
+  cbn. eapply sel_ok_plan; eauto. now apply pairs_regs.
+Qed.
+
+(* ---------- one iteration of _loop ---------- *)
+Lemma p_idle_not_aw : forall e, p_idle e = true -> is_aw_call e = false.
+Proof. now destruct e. Qed.
+
+Lemma iteration_spec : forall beh s st to tm s1 ready s2 sig,
+  LoopInv s -> plan s = Some (to, tm) ->
+  do_select to (watch s) st s = (s1, Some ready) ->
+  after_select beh tm ready s1 = (s2, sig) ->
+  Inv s2 /\ (sig = SCont -> LoopInv s2).
+Proof.
+  intros beh s st to tm s1 ready s2 sig L Pl Ds As.
+  destruct (do_select_spec _ _ _ _ _ Ds) as [pairs [v [Hp [Es1 [Er Hv]]]]]. subst ready.
+  pose proof (Inv_select s to tm pairs v L Pl Hp) as HI1. rewrite <- Es1 in HI1.
+  assert (Tr1 : rtrace s1 = ESelect to (map fst (watch s)) (now s) (map fst pairs) :: rtrace s) by (subst s1; reflexivity).
+  assert (Ls1 : last_select (rtrace s1) = Some (to, map fst (watch s), now s, map fst pairs)) by (rewrite Tr1; reflexivity).
+  assert (Bs1 : before_select (rtrace s1) = rtrace s) by (rewrite Tr1; reflexivity).
+  unfold after_select in As. destruct pairs as [|p ps].
+  - (* nothing readable *)
+    destruct (Hv eq_refl) as [t0 [-> Ev]].
+    assert (Hfin : forall s' , Inv s' -> (exists new, rtrace s' = new ++ rtrace s1 /\ forall e, In e new -> p_nosel e = true) ->
+                     batch_done (rtrace s')).
+    { intros s' _ [new [En Hn]]. unfold batch_done. rewrite En. destruct (nosel_app new (rtrace s1) Hn) as [A _].
+      rewrite A, Ls1. cbn. intros fd []. }
+    destruct tm.
+    + (* TmNone *)
+      cbn in As. inversion As; subst s2 sig. split; [exact HI1|]. intros _. split; [exact HI1|split].
+      * apply Hfin; auto. exists []. split; [reflexivity|intros e []].
+      * rewrite Tr1. intros D. apply idle_done_cons; [reflexivity|]. apply L. subst s1. exact D.
+    + (* TmIdle *)
+      destruct (idle_round beh (idles s1) s1) as [s' sg] eqn:Ir.
+      destruct (idle_round_spec beh (idles s1) s1 s' sg HI1) as [HI' [Dd [new [En [Pn Cn]]]]]; auto.
+      { intros h id X. destruct HI1 as [_ _ [K I F] _]. now apply I. }
+      destruct sg.
+      * cbn in As. inversion As; subst s2 sig. split; [now apply Inv_set_did|]. intros _.
+        split; [now apply Inv_set_did|split].
+        -- apply (Hfin (set_did false s')); [now apply Inv_set_did|]. exists new. split; [exact En|].
+           intros; apply p_idle_nosel; auto.
+        -- intros _. cbn. rewrite En, Tr1.
+           destruct (plan_cases _ _ _ Pl) as [[_ [X _]]|[[X _]|[a [rest [_ [_ [X _]]]]]]]; try discriminate.
+           inversion X; subst t0.
+           exists new, (map fst (watch s)), (now s), (rtrace s). split; [reflexivity|split].
+           ++ intros e X'. apply p_idle_not_aw. auto.
+           ++ intros h id Hs Hr. apply (Cn eq_refl).
+              ** destruct HI1 as [_ _ [K I F] _]. apply I. rewrite Tr1. split; [now right|].
+                 intros Y. apply Hr. unfold iremoved in *. apply in_app_iff. right. exact Y.
+              ** rewrite En, Tr1. exact Hr.
+      * inversion As; subst. split; [auto|discriminate].
+      * inversion As; subst. split; [auto|discriminate].
+    + (* TmAlarm *)
+      destruct (plan_cases _ _ _ Pl) as [[X _]|[[_ [X _]]|[a [rest [Ea [Et _]]]]]]; try discriminate.
+      inversion Et; subst t0.
+      assert (Ea1 : alarms s1 = a :: rest) by (subst s1; exact Ea).
+      rewrite Ea1 in As.
+      destruct (run_cb beh (EAlarmCall (a_tie a) (a_cb a) (now s1)) (a_cb a) (set_alarms rest s1)) as [s' sg] eqn:C.
+      assert (HIc : Inv (log (EAlarmCall (a_tie a) (a_cb a) (now s1)) (set_alarms rest s1))).
+      { apply Inv_alarm_call; auto. subst s1. cbn. lia. }
+      assert (HI' : Inv s') by (eapply Inv_run_cb; eauto).
+      destruct (ext_run_cb _ _ _ _ _ _ C) as [m [Em [Hm _]]]. cbn in Em.
+      destruct sg.
+      * cbn in As. inversion As; subst s2 sig. split; [now apply Inv_set_did|]. intros _.
+        split; [now apply Inv_set_did|split; [|discriminate]].
+        apply (Hfin (set_did true s')); [now apply Inv_set_did|].
+        exists (m ++ [EAlarmCall (a_tie a) (a_cb a) (now s1)]). split.
+        -- cbn. rewrite Em. now rewrite <- app_assoc.
+        -- intros e X. apply in_app_iff in X. destruct X as [X|[<-|[]]]; [apply p_act_nosel; auto|reflexivity].
+      * inversion As; subst. split; [auto|discriminate].
+      * inversion As; subst. split; [auto|discriminate].
+  - (* a ready batch *)
+    cbn in As.
+    destruct (process_ready_spec beh (p :: ps) s1 s2 sig _ _ _ _ HI1 Ls1) as [HI2 [new [En [Pn Cn]]]]; auto.
+    { rewrite Bs1. intros fd id X. split.
+      - apply in_map_iff. exists (fd, id). auto.
+      - destruct L as [[_ [K Lk] _ _] _]. rewrite <- Lk. auto. }
+    split; [exact HI2|]. intros Hs. destruct (Cn Hs) as [Dd Hh]. split; [exact HI2|split].
+    + unfold batch_done. rewrite En.
+      destruct (nosel_app new (rtrace s1)) as [A [B C]]; [intros; apply p_watch_nosel; auto|].
+      rewrite A, Ls1. intros fd X. apply in_map_iff in X. destruct X as [[f i] [X1 X2]]. cbn in X1; subst f.
+      specialize (Hh _ _ X2). rewrite En in Hh. exact Hh.
+    + intros D. destruct Dd as [Dd|[Dn Dd]]; [congruence|]. subst new. cbn in En. rewrite En, Tr1.
+      apply idle_done_cons; [reflexivity|]. apply L. rewrite Dd in D. subst s1. exact D.
+Qed.
+
+(* ---------- run() : all iterations, any environment ---------- *)
+Lemma run_loop_inv : forall beh env s s' o, LoopInv s -> run_loop beh env s = (s', o) -> Inv s'.
+Proof.
+  induction env as [|st env IH]; intros s s' o L E; cbn in E.
+  - destruct (plan s) as [[to tm]|] eqn:Pl; inversion E; subst; [|apply L].
+    change (log (ESelect to (map fst (watch s)) (now s) []) s)
+      with (set_now (now s) (log (ESelect to (map fst (watch s)) (now s) (map fst (@nil (Z * Z)))) s)).
+    eapply Inv_select; eauto. intros fd id [].
+  - destruct (plan s) as [[to tm]|] eqn:Pl; [|inversion E; subst; apply L].
+    destruct (do_select to (watch s) st s) as [s1 [ready|]] eqn:Ds.
+    + destruct (after_select beh tm ready s1) as [s2 sg] eqn:As.
+      destruct (iteration_spec _ _ _ _ _ _ _ _ _ L Pl Ds As) as [HI HL].
+      destruct sg; [exact (IH s2 s' o (HL eq_refl) E)|inversion E; subst; auto|inversion E; subst; auto].
+    + inversion E; subst. destruct (do_select_spec _ _ _ _ _ Ds) as [pairs [v [Hp [-> _]]]].
+      eapply Inv_select; eauto.
+Qed.
+
+Lemma Inv_init : Inv init.
+Proof.
+  constructor; cbn.
+  - constructor; cbn; [constructor|constructor| |].
+    + intros d k i. split; [intros []|intros [[] _]].
+    + intros k d i [].
+  - constructor; cbn; [constructor|reflexivity].
+  - constructor; cbn; [constructor| |].
+    + intros h id. split; [intros []|intros [[] _]].
+    + intros h id [].
+  - exact Logic.I.
+Qed.
+
+Lemma LoopInv_start : forall s, Inv s -> last_select (rtrace s) = None -> LoopInv (set_did true s).
+Proof.
+  intros s H Ls. split; [now apply Inv_set_did|split].
+  - unfold batch_done. cbn. now rewrite Ls.
+  - discriminate.
+Qed.
+
+Lemma setup_state : forall setup s0 sig, run_actions setup init = (s0, sig) -> Inv s0 /\ last_select (rtrace s0) = None.
+Proof.
+  intros setup s0 sig E. split; [eapply Inv_run_actions; eauto; apply Inv_init|].
+  destruct (ext_run_actions _ _ _ _ E) as [[n [En Hn]] _]. rewrite En. cbn. rewrite app_nil_r.
+  destruct (nosel_app n [] ) as [A _]; [intros; apply p_act_nosel; auto|]. rewrite app_nil_r in A. exact A.
+Qed.
+
+(* the whole contract holds of the history of any scenario *)
+Theorem scenario_hist_ok : forall setup beh env, hist_ok ev_ok (rtrace (fst (scenario setup beh env))).
+Proof.
+  intros. unfold scenario, run. destruct (run_actions setup init) as [s0 sg] eqn:E. cbn.
+  destruct (setup_state _ _ _ E) as [HI Ls].
+  destruct (run_loop beh env (set_did true s0)) as [s' o] eqn:R. cbn.
+  apply (run_loop_inv _ _ _ _ _ (LoopInv_start _ HI Ls) R).
+Qed.
+
+Theorem scenario_inv : forall setup beh env, Inv (fst (scenario setup beh env)).
+Proof.
+  intros. unfold scenario, run. destruct (run_actions setup init) as [s0 sg] eqn:E. cbn.
+  destruct (setup_state _ _ _ E) as [HI Ls].
+  destruct (run_loop beh env (set_did true s0)) as [s' o] eqn:R. cbn.
+  apply (run_loop_inv _ _ _ _ _ (LoopInv_start _ HI Ls) R).
+Qed.
+
+(* ---------- exceptions ---------- *)
+Definition exc_post (s : state) (sig : signal) : Prop :=
+  match sig with
+  | SCont => no_raise (rtrace s)
+  | SExit => exists r, rtrace s = ERaise true :: r /\ no_raise r
+  | SOther => exists r, rtrace s = ERaise false :: r /\ no_raise r
+  end.
+
+Lemma no_raise_cons : forall e tr, (forall b, e <> ERaise b) -> no_raise tr -> no_raise (e :: tr).
+Proof. intros e tr He H b [X|X]; [eapply He; eauto|eapply H; eauto]. Qed.
+
+Lemma exc_exec_action : forall a s s' sig, no_raise (rtrace s) -> exec_action a s = (s', sig) -> exc_post s' sig.
+Proof.
+  intros a s s' sig H E. destruct a; cbn in E; inversion E; subst; clear E; cbn; auto;
+    unfold op_alarm, op_remove_alarm, op_watch, op_remove_watch, op_idle, op_remove_idle;
+    repeat match goal with |- context [if ?c then _ else _] => destruct c end; cbn;
+    try (apply no_raise_cons; [intros b; discriminate|exact H]); eauto.
+Qed.
+
+Lemma exc_run_actions : forall acts s s' sig, no_raise (rtrace s) -> run_actions acts s = (s', sig) -> exc_post s' sig.
+Proof.
+  induction acts as [|a r IH]; cbn; intros s s' sig H E.
+  - inversion E; subst. exact H.
+  - destruct (exec_action a s) as [s1 sg] eqn:E1. pose proof (exc_exec_action _ _ _ _ H E1) as X.
+    destruct sg; [eapply IH; eauto|inversion E; subst; exact X|inversion E; subst; exact X].
+Qed.
+
+Lemma exc_run_cb : forall beh e id s s' sig, (forall b, e <> ERaise b) -> no_raise (rtrace s) ->
+  run_cb beh e id s = (s', sig) -> exc_post s' sig.
+Proof. intros beh e id s s' sig He H E. unfold run_cb in E. eapply exc_run_actions; [|exact E]. cbn. now apply no_raise_cons. Qed.
+
+Lemma exc_idle_round : forall beh snap s s' sig, no_raise (rtrace s) -> idle_round beh snap s = (s', sig) -> exc_post s' sig.
+Proof.
+  induction snap as [|[h id] r IH]; cbn; intros s s' sig H E.
+  - inversion E; subst. exact H.
+  - destruct (mem h (idles s)); [|eauto].
+    destruct (run_cb beh (EIdleCall h id (now s)) id s) as [s1 sg] eqn:C.
+    assert (X : exc_post s1 sg) by (eapply exc_run_cb; [| |exact C]; [intros b; discriminate|exact H]).
+    destruct sg; [eapply IH; eauto|inversion E; subst; exact X|inversion E; subst; exact X].
+Qed.
+
+Lemma exc_process_ready : forall beh ready s s' sig, no_raise (rtrace s) -> process_ready beh ready s = (s', sig) -> exc_post s' sig.
+Proof.
+  induction ready as [|[fd id] r IH]; cbn; intros s s' sig H E.
+  - inversion E; subst. exact H.
+  - destruct (mem fd (watch s)); [|eauto].
+    destruct (run_cb beh (EWatchCall fd id (now s)) id s) as [s1 sg] eqn:C.
+    assert (X : exc_post s1 sg) by (eapply exc_run_cb; [| |exact C]; [intros b; discriminate|exact H]).
+    destruct sg; [eapply IH; [|exact E]; exact X|inversion E; subst; exact X|inversion E; subst; exact X].
+Qed.
+
+Lemma exc_after_select : forall beh tm ready s s' sig, no_raise (rtrace s) -> after_select beh tm ready s = (s', sig) -> exc_post s' sig.
+Proof.
+  intros beh tm ready s s' sig H E. unfold after_select in E.
+  destruct ready as [|p ps].
+  - destruct tm.
+    + cbn in E. inversion E; subst. exact H.
+    + destruct (idle_round beh (idles s) s) as [s1 sg] eqn:Ir. pose proof (exc_idle_round _ _ _ _ _ H Ir) as X.
+      destruct sg; cbn in E; inversion E; subst; exact X.
+    + destruct (alarms s) as [|a rest] eqn:Ea.
+      * cbn in E. inversion E; subst. exact H.
+      * destruct (run_cb beh (EAlarmCall (a_tie a) (a_cb a) (now s)) (a_cb a) (set_alarms rest s)) as [s1 sg] eqn:C.
+        assert (X : exc_post s1 sg) by (eapply exc_run_cb; [| |exact C]; [intros b; discriminate|exact H]).
+        destruct sg; cbn in E; inversion E; subst; exact X.
+  - eapply exc_process_ready; eauto.
+Qed.
+
+Definition exc_outcome (s : state) (o : outcome) : Prop :=
+  match o with
+  | OReturned => exists r, rtrace s = ERaise true :: r /\ no_raise r
+  | ORaised => exists r, rtrace s = ERaise false :: r /\ no_raise r
+  | _ => no_raise (rtrace s)
+  end.
+
+Lemma exc_run_loop : forall beh env s s' o, no_raise (rtrace s) -> run_loop beh env s = (s', o) -> exc_outcome s' o.
+Proof.
+  induction env as [|st env IH]; intros s s' o H E; cbn in E.
+  - destruct (plan s) as [[to tm]|]; inversion E; subst; cbn; [|exact H].
+    apply no_raise_cons; [intros b; discriminate|exact H].
+  - destruct (plan s) as [[to tm]|]; [|inversion E; subst; exact H].
+    destruct (do_select to (watch s) st s) as [s1 r] eqn:Ds.
+    destruct (do_select_spec _ _ _ _ _ Ds) as [pairs [v [_ [Es1 _]]]].
+    assert (H1 : no_raise (rtrace s1)) by (subst s1; cbn; apply no_raise_cons; [intros b; discriminate|exact H]).
+    destruct r as [ready|]; [|inversion E; subst; exact H1].
+    destruct (after_select beh tm ready s1) as [s2 sg] eqn:As.
+    pose proof (exc_after_select _ _ _ _ _ _ H1 As) as X.
+    destruct sg; [eapply IH; eauto|inversion E; subst; exact X|inversion E; subst; exact X].
+Qed.
+
+Lemma setup_no_raise : forall setup s, no_raise (rtrace s) -> (forall a, In a setup -> action_raises a = false) ->
+  exists s', run_actions setup s = (s', SCont) /\ no_raise (rtrace s').
+Proof.
+  induction setup as [|a r IH]; cbn; intros s H Hs.
+  - eauto.
+  - destruct (exec_action a s) as [s1 sg] eqn:E1. pose proof (exc_exec_action _ _ _ _ H E1) as X.
+    assert (Ha : action_raises a = false) by (apply Hs; now left).
+    assert (sg = SCont) by (destruct a; cbn in E1; inversion E1; subst; auto; discriminate). subst sg.
+    apply IH; auto.
+Qed.
+
+Theorem scenario_exceptions : forall setup beh env,
+  (forall a, In a setup -> action_raises a = false) ->
+  exc_outcome (fst (scenario setup beh env)) (snd (scenario setup beh env)).
+Proof.
+  intros setup beh env Hs. unfold scenario, run.
+  destruct (setup_no_raise setup init) as [s0 [E H0]]; [intros b []|exact Hs|]. rewrite E. cbn.
+  destruct (run_loop beh env (set_did true s0)) as [s' o] eqn:R. cbn.
+  eapply exc_run_loop; [|exact R]. exact H0.
+Qed.
+
+(* ---------- reading the contract off a history ---------- *)
+Lemma hist_ok_split : forall P tr, hist_ok P tr <-> (forall newer e older, tr = newer ++ e :: older -> P e older).
+Proof.
+  induction tr as [|x r IH]; cbn.
+  - split; [intros _ [|? ?] e0 older H; discriminate|auto].
+  - split.
+    + intros [Hx Hr] [|y newer] e0 older H; cbn in H; inversion H; subst; [exact Hx|].
+      eapply IH; eauto.
+    + intros H. split; [apply (H [] x r eq_refl)|]. apply IH. intros newer e older ->. apply (H (x :: newer) e older eq_refl).
+Qed.
+
+Lemma hist_ok_suffix : forall P newer older, hist_ok P (newer ++ older) -> hist_ok P older.
+Proof. induction newer; cbn; intros older H; [exact H|]. destruct H; auto. Qed.
+
+Lemma acalled_dec : forall k tr, acalled k tr \/ ~ acalled k tr.
+Proof.
+  induction tr as [|e r IH].
+  - right. intros [id [t []]].
+  - destruct IH as [[id [t H]]|H]; [left; exists id, t; now right|].
+    destruct e; try (right; intros [id' [t' [X|X]]]; [discriminate|apply H; now exists id', t']).
+    destruct (Z.eq_dec tie k) as [->|Hn].
+    + left. exists id, t. now left.
+    + right. intros [id' [t' [X|X]]]; [inversion X; congruence|apply H; now exists id', t'].
+Qed.
+
+Lemma aremoved_dec : forall k tr, aremoved k tr \/ ~ aremoved k tr.
+Proof.
+  induction tr as [|e r IH].
+  - right. intros [].
+  - destruct IH as [H|H]; [left; now right|].
+    destruct e; try (right; intros [X|X]; [discriminate|auto]).
+    destruct ok; [|right; intros [X|X]; [discriminate|auto]].
+    destruct (Z.eq_dec tie k) as [->|Hn]; [left; now left|].
+    right; intros [X|X]; [inversion X; congruence|auto].
+Qed.
+
+(* an alarm callback: set before with this callback, not early, not called or removed before,
+   no other pending alarm is earlier; and it is never called again later *)
+Lemma alarm_call_facts : forall tr newer k id t older, hist_ok ev_ok tr -> tr = newer ++ EAlarmCall k id t :: older ->
+  (exists due, aset k due id older /\ due <= t /\ ~ acalled k older /\ ~ aremoved k older /\
+     (forall k' d' i', pending k' d' i' older -> due < d' \/ (due = d' /\ k <= k')) /\
+     (forall k' d' i', aset k' d' i' older -> d' < due \/ (d' = due /\ k' < k) -> acalled k' older \/ aremoved k' older)) /\
+  ~ acalled k newer /\ ~ aremoved k newer.
+Proof.
+  intros tr newer k id t older H E. pose proof (proj1 (hist_ok_split _ _) H) as Hs.
+  pose proof (Hs _ _ _ E) as He. cbn in He. destruct He as [due [[P1 [P2 P3]] [Hd Hmin]]].
+  split; [exists due; repeat split; auto|split].
+  - intros k' d' i' Pk. specialize (Hmin _ _ _ Pk). apply alarm_lt_false in Hmin. cbn in Hmin. lia.
+  - intros k' d' i' As Hlt. destruct (acalled_dec k' older) as [C|C]; [now left|].
+    destruct (aremoved_dec k' older) as [R|R]; [now right|]. exfalso.
+    assert (Pk : pending k' d' i' older) by (split; auto).
+    specialize (Hmin _ _ _ Pk). apply alarm_lt_false in Hmin. cbn in Hmin. lia.
+  - intros [id' [t' X]]. apply in_split in X. destruct X as [n2 [n1 X]]. subst newer.
+    rewrite <- app_assoc in E. cbn in E. specialize (Hs _ _ _ E). cbn in Hs.
+    destruct Hs as [due' [[_ [Q _]] _]]. apply Q. exists id, t. apply in_app_iff. right. now left.
+  - intros X. apply in_split in X. destruct X as [n2 [n1 X]]. subst newer.
+    rewrite <- app_assoc in E. cbn in E. specialize (Hs _ _ _ E). cbn in Hs.
+    destruct Hs as [Hs _]. destruct (Hs eq_refl) as [d [i [_ [Q _]]]]. apply Q. exists id, t. apply in_app_iff. right. now left.
+Qed.
+
+(* a successful removal: the alarm never runs afterwards and every later removal reports failure *)
+Lemma alarm_removed_facts : forall tr newer k older, hist_ok ev_ok tr -> tr = newer ++ ERmAlarm k true :: older ->
+  (exists d i, pending k d i older) /\ ~ acalled k newer /\ (forall ok, In (ERmAlarm k ok) newer -> ok = false).
+Proof.
+  intros tr newer k older H E. pose proof (proj1 (hist_ok_split _ _) H) as Hs.
+  pose proof (Hs _ _ _ E) as He. cbn in He. split; [now apply He|split].
+  - intros [id' [t' X]]. apply in_split in X. destruct X as [n2 [n1 X]]. subst newer.
+    rewrite <- app_assoc in E. cbn in E. specialize (Hs _ _ _ E). cbn in Hs.
+    destruct Hs as [due' [[_ [_ Q]] _]]. apply Q. unfold aremoved. apply in_app_iff. right. now left.
+  - intros ok X. destruct ok; [|reflexivity]. exfalso. apply in_split in X. destruct X as [n2 [n1 X]]. subst newer.
+    rewrite <- app_assoc in E. cbn in E. specialize (Hs _ _ _ E). cbn in Hs.
+    destruct Hs as [Hs _]. destruct (Hs eq_refl) as [d [i [_ [_ Q]]]]. apply Q. unfold aremoved. apply in_app_iff. right. now left.
+Qed.
+
+(* a successfully removed idle callback is not called again *)
+Lemma idle_removed_facts : forall tr newer h older, hist_ok ev_ok tr -> tr = newer ++ ERmIdle h true :: older ->
+  (forall id t, ~ In (EIdleCall h id t) newer) /\ (forall ok, In (ERmIdle h ok) newer -> ok = false).
+Proof.
+  intros tr newer h older H E. pose proof (proj1 (hist_ok_split _ _) H) as Hs. split.
+  - intros id t X. apply in_split in X. destruct X as [n2 [n1 X]]. subst newer.
+    rewrite <- app_assoc in E. cbn in E. specialize (Hs _ _ _ E). cbn in Hs.
+    destruct Hs as [_ Q]. apply Q. unfold iremoved. apply in_app_iff. right. now left.
+  - intros ok X. destruct ok; [|reflexivity]. exfalso. apply in_split in X. destruct X as [n2 [n1 X]]. subst newer.
+    rewrite <- app_assoc in E. cbn in E. specialize (Hs _ _ _ E). cbn in Hs.
+    destruct Hs as [Hs _]. destruct (Hs eq_refl) as [_ Q]. apply Q. unfold iremoved. apply in_app_iff. right. now left.
+Qed.
+
+(* after a successful remove_watch_file(fd) no callback of fd runs until fd is registered again *)
+Lemma watched_none_until_set : forall newer fd older,
+  (forall id, ~ In (EWatchSet fd id) newer) -> watched fd (newer ++ ERmWatch fd true :: older) = None.
+Proof.
+  induction newer as [|e r IH]; intros fd older Hn; cbn.
+  - now rewrite Z.eqb_refl.
+  - assert (Hr : forall id, ~ In (EWatchSet fd id) r) by (intros id X; apply (Hn id); now right).
+    destruct e; try (apply IH; exact Hr).
+    + destruct (fd0 =? fd) eqn:E; [|apply IH; exact Hr]. apply Z.eqb_eq in E; subst. exfalso. apply (Hn id). now left.
+    + destruct ok; [|apply IH; exact Hr]. destruct (fd0 =? fd); [reflexivity|apply IH; exact Hr].
+Qed.
+
+Lemma watch_removed_facts : forall tr newer fd older, hist_ok ev_ok tr -> tr = newer ++ ERmWatch fd true :: older ->
+  forall n2 id t n1, newer = n2 ++ EWatchCall fd id t :: n1 -> exists id', In (EWatchSet fd id') n1.
+Proof.
+  intros tr newer fd older H E n2 id t n1 En. pose proof (proj1 (hist_ok_split _ _) H) as Hs.
+  subst newer. rewrite <- app_assoc in E. cbn in E. specialize (Hs _ _ _ E). cbn in Hs. destruct Hs as [Hw _].
+  (* decide whether a registration occurs in n1 *)
+  assert (D : (exists id', In (EWatchSet fd id') n1) \/ (forall id', ~ In (EWatchSet fd id') n1)).
+  { clear. induction n1 as [|e r IH]; [right; intros id' []|].
+    destruct IH as [[id' X]|X]; [left; exists id'; now right|].
+    destruct e; try (right; intros id' [Y|Y]; [discriminate|eapply X; eauto]).
+    destruct (Z.eq_dec fd0 fd) as [->|Hn]; [left; exists id; now left|].
+    right; intros id' [Y|Y]; [inversion Y; congruence|eapply X; eauto]. }
+  destruct D as [D|D]; [exact D|]. exfalso. apply Hw. now apply watched_none_until_set.
 Qed.
